@@ -90,11 +90,11 @@ Proof.
   - apply st_save_spec in E1 as (_ & _ & _ & Cu & _). simpl in Cu.
     destruct (is_locked E u2) eqn:IL; cbn [negb] in E2.
     + apply bind_inv in E2 as [(a2 & h3 & E3 & E4)|[(e & E3 & ->)|(E3 & ->)]].
-      * inversion E4; subst. apply (pres_redirect E h_cuser (ro_fail p_lock_notok)) in E3.
+      * inversion E4; subst. apply (pres_redirect E h_cuser (ro_fail (p_lock_notok_of (e_cfg E)))) in E3.
         split; [left; rewrite E3; exact Cu|intros _; discriminate].
-      * apply (pres_redirect E h_cuser (ro_fail p_lock_notok)) in E3.
+      * apply (pres_redirect E h_cuser (ro_fail (p_lock_notok_of (e_cfg E)))) in E3.
         split; [left; rewrite E3; exact Cu|intros _; discriminate].
-      * apply (pres_redirect E h_cuser (ro_fail p_lock_notok)) in E3.
+      * apply (pres_redirect E h_cuser (ro_fail (p_lock_notok_of (e_cfg E)))) in E3.
         split; [left; rewrite E3; exact Cu|intros _; discriminate].
     + inversion E2; subst. split; [left; exact Cu|]. intros L. specialize (Lk L). congruence.
   - apply st_save_spec in E1 as (_ & _ & _ & Cu & _). simpl in Cu. split; [left; exact Cu|intros _; discriminate].
@@ -111,7 +111,7 @@ Proof.
   destruct (u_confirmed cu) eqn:Cf.
   - apply bind_inv in Eq as [(a & h1 & E1 & E2)|[(e & E1 & ->)|(E1 & ->)]]; inversion E1; subst.
     inversion E2; subst. simpl. split; [exact Hc|discriminate].
-  - assert (PR : pres (fun h => h_cuser h) (log [u_pid cu] ;;; redirect E (ro_fail p_confirm_notok) ;;; ret true)).
+  - assert (PR : pres (fun h => h_cuser h) (log [u_pid cu] ;;; redirect E (ro_fail (p_confirm_notok_of (e_cfg E))) ;;; ret true)).
     { apply (pres_bind h_cuser); [apply (pres_log h_cuser)|intros].
       apply (pres_bind h_cuser); [apply (pres_redirect E h_cuser)|intros; apply (pres_ret h_cuser)]. }
     pose proof (PR _ _ _ Eq) as Cu. split; [rewrite Cu; exact Hc|]. intros _.
